@@ -1,7 +1,7 @@
 (* C08 - proofs about FullyShard.v: dim-0 sharding, the filtered traversals of the FullyShard distributor, FullyShard =
    serial on the local tensors, absent DTensor gradients, HybridShard = FullyShard + the C06 mechanism per column. *)
 From Coq Require Import List ZArith Bool Arith Lia.
-From Shampoo Require Import Show SplitRecovery Masks MasksProofs Dist DistProofs FullyShard.
+From Shampoo Require Import Show SplitRecovery Masks MasksProofs Dist DistProofs DistSchedProofs FullyShard.
 Import ListNotations.
 Close Scope Z_scope.
 Open Scope nat_scope.
@@ -630,3 +630,286 @@ Section ColumnFromC06.
     injection Hrun as <-. apply (rel_run P WF h _ _ Hs). apply rel_plain.
   Qed.
 End ColumnFromC06.
+
+(* ---- the single-process optimizer of C06 (Dist.serial_run, block level) and of C04 (Masks.spec_run, parameter level)
+        are the same thing on an all-local layout ------------------------------------------------------------------ *)
+Section Bridge.
+  Context {bstate value grad : Type}.
+  Variable P : params bstate value grad.
+  Variable bq : Z -> bstate -> value -> grad -> bstate * value.
+  Hypothesis Hupd : p_upd P = fun _ => bq.
+  Variable cf : value -> value.
+  Variable nextra : nat.
+  Variable nbs : list nat.
+  Hypothesis Hnb : p_nb P = lsum nbs.
+  Local Notation lay := (all_local_layout nextra nbs).
+  Local Notation bstep := (bstep_of bq (p_apply P) cf).
+
+  Lemma any_sel_is_some (e : entry grad) : length e = p_nb P -> any_sel P e = existsb is_some e.
+  Proof.
+    intros L. apply eq_iff_eq_true. unfold any_sel. rewrite existsb_seq_true, existsb_exists. split.
+    - intros [b [Hb H]]. unfold selb, gradof in H. destruct (nth_error e b) as [o|] eqn:E; [|discriminate].
+      exists o. split; [eapply nth_error_In; exact E|]. destruct o; [reflexivity|discriminate].
+    - intros [o [Hin H]]. apply In_nth_error in Hin as [b E]. exists b. split.
+      + rewrite <- L. apply nth_error_Some. congruence.
+      + unfold selb, gradof. rewrite E. destruct o; [reflexivity|discriminate].
+  Qed.
+
+  Definition sstate_of (x : Z * list value * list bstate) : sstate bstate value :=
+    let '(t, v, s) := x in mkS v s t.
+
+  Lemma bridge_step t vals sts (pg : pgrads grad) :
+    length vals = lsum nbs -> length sts = lsum nbs -> wf_input lay pg ->
+    serial_step P cf (mkS vals sts t) (global_grads pg nbs) = sstate_of (spec_step bstep lay (t, vals, sts) pg)
+    /\ length (snd (fst (spec_step bstep lay (t, vals, sts) pg))) = lsum nbs
+    /\ length (snd (spec_step bstep lay (t, vals, sts) pg)) = lsum nbs.
+  Proof.
+    intros Lv Ls Hw.
+    assert (Le : length (global_grads pg nbs) = lsum nbs) by (rewrite lsum_sum; apply global_grads_length; exact Hw).
+    assert (El : local_grads lay pg = global_grads pg nbs).
+    { unfold local_grads, all_local_layout. cbn [l_nbs l_dsel]. apply compress_all_true. exact Le. }
+    unfold spec_step. rewrite El. set (e := global_grads pg nbs) in *.
+    unfold serial_step. rewrite any_sel_is_some by (rewrite Hnb; exact Le). cbn [svals ssts sstepc].
+    destruct (existsb is_some e) eqn:Ea.
+    - cbn [sstate_of fst snd]. rewrite !map_length, blockwise_length by lia. split; [|split; exact Le].
+      f_equal.
+      + apply (nth_ext _ _ (p_dv P) (p_dv P)).
+        { rewrite tab_length, map_length, blockwise_length by lia. lia. }
+        intros b Hb. rewrite tab_length in Hb. rewrite nth_tab by exact Hb.
+        assert (Hb1 : b < length e) by lia. assert (Hb2 : b < length sts) by lia. assert (Hb3 : b < length vals) by lia.
+        apply nth_error_Some in Hb1. apply nth_error_Some in Hb2. apply nth_error_Some in Hb3.
+        destruct (nth_error e b) as [og|] eqn:E1; [|congruence].
+        destruct (nth_error sts b) as [st|] eqn:E2; [|congruence].
+        destruct (nth_error vals b) as [v|] eqn:E3; [|congruence].
+        erewrite (nth_error_nth (map snd _)) by (rewrite nth_error_map, nth_error_blockwise, E1, E2, E3; reflexivity).
+        unfold block_out, gradof. rewrite E1, (nth_error_nth _ _ _ E2), (nth_error_nth _ _ _ E3), Hupd.
+        destruct og as [g|]; cbn [block_update bstep_of snd]; [|reflexivity].
+        destruct (bq (t + 1)%Z st v g); reflexivity.
+      + apply (nth_ext _ _ (p_ds P) (p_ds P)).
+        { rewrite tab_length, map_length, blockwise_length by lia. lia. }
+        intros b Hb. rewrite tab_length in Hb. rewrite nth_tab by exact Hb.
+        assert (Hb1 : b < length e) by lia. assert (Hb2 : b < length sts) by lia. assert (Hb3 : b < length vals) by lia.
+        apply nth_error_Some in Hb1. apply nth_error_Some in Hb2. apply nth_error_Some in Hb3.
+        destruct (nth_error e b) as [og|] eqn:E1; [|congruence].
+        destruct (nth_error sts b) as [st|] eqn:E2; [|congruence].
+        destruct (nth_error vals b) as [v|] eqn:E3; [|congruence].
+        erewrite (nth_error_nth (map fst _)) by (rewrite nth_error_map, nth_error_blockwise, E1, E2, E3; reflexivity).
+        unfold block_out, gradof. rewrite E1, (nth_error_nth _ _ _ E2), (nth_error_nth _ _ _ E3), Hupd.
+        destruct og as [g|]; cbn [block_update bstep_of fst]; [|reflexivity].
+        destruct (bq (t + 1)%Z st v g); reflexivity.
+    - destruct (blockwise_all_none _ _ _ bstep t e sts vals Ea) as [E1 E2]; [lia..|].
+      cbn [sstate_of fst snd]. rewrite E1, E2. repeat split; assumption.
+  Qed.
+
+  Lemma bridge_run (h : list (pgrads grad)) : forall t vals sts,
+    length vals = lsum nbs -> length sts = lsum nbs -> wf_history grad lay h ->
+    serial_run P cf (map (fun pg => global_grads pg nbs) h) (mkS vals sts t) = sstate_of (spec_run bstep lay (t, vals, sts) h).
+  Proof.
+    unfold serial_run, spec_run.
+    induction h as [|pg h IH]; intros t vals sts Lv Ls Hw; cbn [map fold_left]; [reflexivity|].
+    inversion Hw as [|? ? Hpg Hh]; subst.
+    destruct (bridge_step t vals sts pg Lv Ls Hpg) as (E & L1 & L2). rewrite E.
+    destruct (spec_step bstep lay (t, vals, sts) pg) as [[t' v'] s']. cbn [sstate_of fst snd] in *.
+    apply IH; assumption.
+  Qed.
+End Bridge.
+
+(* ---- replicas agree, for ANY per-column C06 parameters (the per-block computation may even depend on the block) ---- *)
+Section HybridAgree.
+  Context {bstate value grad : Type}.
+  Variable R S : nat.
+  Variable P : nat -> params bstate value grad.
+  Hypothesis HWF : hy_wf R S P.
+
+  Lemma logs_rel_fold s (Hs : s < S) h : forall c, Forall (sync_entry (P s)) h -> logs_rel (P s) c ->
+    logs_rel (P s) (fold_left (ddp_step_tot (P s)) h c).
+  Proof.
+    destruct HWF as [_ W]. destruct (W s Hs) as [WFs _].
+    induction h as [|e h IH]; intros c H H0; cbn [fold_left]; [exact H0|].
+    inversion H as [|? ? He Ht]; subst. apply IH; [exact Ht|]. apply logs_rel_step; assumption.
+  Qed.
+
+  (* HYBRID REPLICAS AGREE: under no_starvation (in every column) the lock-step run of the whole mesh exists (no
+     collective blocks), and all replicas of a shard coordinate hold identical local shards and step counters -
+     whatever the communication dtype, the assignment of blocks, num_trainers_per_group - and the ranks of one
+     comms group have issued the same sequence of all-gathers. *)
+  Theorem hybrid_replicas_agree (h : list hentry) v0 st0 b0 :
+    hy_no_starvation S P h ->
+    exists c, hy_run R S P h (hy_init R S v0 st0 b0) = Some c /\
+      forall i i' s, i < R -> i' < R -> s < S ->
+        vals (cget c (hrank S i s)) = vals (cget c (hrank S i' s))
+        /\ stepc (cget c (hrank S i s)) = stepc (cget c (hrank S i' s))
+        /\ (grp (P s) i = grp (P s) i' -> gathers (log (cget c (hrank S i s))) = gathers (log (cget c (hrank S i' s)))).
+  Proof.
+    intros Hns. destruct HWF as [HS W].
+    assert (HW : forall s, s < S -> p_world (P s) = R) by (intros s Hs; apply W; exact Hs).
+    assert (WF : forall s, s < S -> wf_config (P s)) by (intros s Hs; apply W; exact Hs).
+    destruct (hy_run_exists R S P HS HW WF h (hy_init R S v0 st0 b0) Hns) as [c [Hrun Hcols]].
+    exists c. split; [exact Hrun|]. intros i i' s Hi Hi' Hs.
+    specialize (Hcols s Hs). rewrite (column_hy_init R S HS) in Hcols by exact Hs.
+    assert (Ep : tab R (fun _ => {| vals := v0 s; sts := st0 s; buf := b0 s; stepc := 0%Z; log := [] |})
+                 = plain_cluster (P s) (v0 s) (st0 s) (b0 s)) by (unfold plain_cluster; rewrite (HW s Hs); reflexivity).
+    rewrite Ep in Hcols.
+    pose proof (column_eq_rounded_serial (P s) (WF s Hs) _ _ _ _ _ (Hns s Hs) Hcols) as A.
+    destruct (A i ltac:(rewrite HW; assumption)) as (A1 & A2 & _).
+    destruct (A i' ltac:(rewrite HW; assumption)) as (B1 & B2 & _).
+    rewrite !(cget_column R S) in A1, A2, B1, B2 by assumption.
+    split; [congruence|]. split; [congruence|]. intros Hg.
+    pose proof (sync_history (P s) (WF s Hs) _ (Hns s Hs)) as Hsy.
+    rewrite (ddp_run_tot (P s) (WF s Hs) _ _ Hsy) in Hcols. injection Hcols as Hc.
+    assert (L : logs_rel (P s) (column R S c s)).
+    { rewrite <- Hc. apply (logs_rel_fold s Hs); [exact Hsy|].
+      intros r r' Hr Hr' _. unfold plain_cluster, cget. rewrite !nth_tab by assumption. reflexivity. }
+    specialize (L i i' ltac:(rewrite HW; assumption) ltac:(rewrite HW; assumption) Hg).
+    rewrite !(cget_column R S) in L by assumption. exact L.
+  Qed.
+End HybridAgree.
+
+(* ---- any interleaving of the ranks between collectives ------------------------------------------------------------ *)
+Section HybridInterleaving.
+  Context {bstate value grad : Type}.
+  Variable R S : nat.
+  Variable P : nat -> params bstate value grad.
+  Hypothesis HWF : hy_wf R S P.
+
+  (* Timing does not matter: the ranks of a column share nothing with the other columns (hybrid_columns), and inside a
+     column - ranks moving independently between collectives, an all-gather firing when all members of its comms group
+     are blocked in it (C06's small-step semantics) - every maximal schedule ends with every rank finished and in the
+     state the lock-step run of the whole mesh gives that rank; none deadlocks. *)
+  Theorem hybrid_interleaving_irrelevant (h : list hentry) (c0 : cluster bstate value) :
+    hy_no_starvation S P h ->
+    exists cf, hy_run R S P h c0 = Some cf /\
+      forall s, s < S ->
+        forall c, sstar (P s) (init_config (P s) (map (fun e : hentry => e s) h) (column R S c0 s)) c -> terminal (P s) c ->
+          finished (P s) c /\ (forall i, i < R -> pst (pget c i) = cget cf (hrank S i s)) /\ ~ deadlocked (P s) c.
+  Proof.
+    intros Hns. destruct HWF as [HS W].
+    assert (HW : forall s, s < S -> p_world (P s) = R) by (intros s Hs; apply W; exact Hs).
+    assert (WF : forall s, s < S -> wf_config (P s)) by (intros s Hs; apply W; exact Hs).
+    destruct (hy_run_exists R S P HS HW WF h c0 Hns) as [cf [Hrun Hcols]].
+    exists cf. split; [exact Hrun|]. intros s Hs c Hstar Hterm.
+    destruct (interleaving_irrelevant (P s) (map (fun e : hentry => e s) h) (column R S c0 s) (WF s Hs) (Hns s Hs))
+      as [cf' [Hrun' Hall]].
+    rewrite (Hcols s Hs) in Hrun'. injection Hrun' as <-.
+    destruct (Hall c Hstar Hterm) as (F & St & D). split; [exact F|]. split; [|exact D].
+    intros i Hi. rewrite (St i ltac:(rewrite HW; assumption)). apply (cget_column R S). exact Hi.
+  Qed.
+End HybridInterleaving.
+
+(* ---- HybridShard = FullyShard + DDP ---------------------------------------------------------------------------- *)
+Section HybridFinal.
+  Context {bstate value grad : Type}.
+  Variable nblk : list Z -> nat.
+  Variable dv : value.
+  Variable ds : bstate.
+  Variable bq : Z -> bstate -> value -> grad -> bstate * value.
+  Variable cast : value -> value.
+  Variable apply2 : value -> value -> value.
+  Variable R S gs nextra : nat.
+  Variable gshapes : list (list Z).
+  Variable owner : nat -> nat -> nat.       (* shard coordinate -> block of the local shards there -> group rank *)
+  Variable nbytes : nat -> nat.
+
+  (* what the ranks with shard coordinate s see of the parameters *)
+  Definition hls (s : nat) : list (list Z) := map (local_shape S s) gshapes.
+  Definition hnb (s : nat) : nat := lsum (fs_nbs nblk (hls s)).
+  Definition hP (s : nat) : params bstate value grad :=
+    column_params dv ds bq apply2 cast R gs (hnb s) (owner s) (nbytes s).
+  (* a step's input: per shard coordinate, per parameter of PARAMS, None or the blocks of p.grad.to_local()
+     (replicas of a shard coordinate hold the same gradient: HSDP all-reduces it over the replicate group) *)
+  Definition hentry_of (pgs : nat -> pgrads grad) : hentry :=
+    fun s => global_grads (fs_grads (hls s) (pgs s)) (fs_nbs nblk (hls s)).
+
+  (* HYBRID = FULLY + DDP.  Any mesh R x S, any num_trainers_per_group gs dividing R, any global shapes (rows may be
+     fewer than S), any assignment of each column's blocks to group ranks, any communication rounding `cast`, any
+     per-block computation, any history without starvation: the lock-step run of the whole mesh exists, and every
+     rank (i, s) ends with exactly the block values and the step counter of the FullyShard-only optimizer of shard
+     coordinate s whose quantity handed to update_params is rounded with `cast` (for FP32 communication of float32
+     parameters `cast` is the identity: exactly the FullyShard run), and with that run's state for the blocks it owns. *)
+  Theorem hybrid_eq_fully_plus_ddp (H : list (nat -> pgrads grad)) (v0 : nat -> list value) (st0 : nat -> list bstate)
+          (b0 : nat -> list value) :
+    0 < S -> 0 < gs -> R = R / gs * gs ->
+    (forall s b, s < S -> b < hnb s -> owner s b < gs) ->
+    (forall s, s < S -> length (v0 s) = hnb s /\ length (st0 s) = hnb s) ->
+    (forall s, s < S -> Forall (fs_wf_input nblk (hls s)) (map (fun pgs => pgs s) H)) ->
+    hy_no_starvation S hP (map hentry_of H) ->
+    exists c, hy_run R S hP (map hentry_of H) (hy_init R S v0 st0 b0) = Some c /\
+      forall i s, i < R -> s < S ->
+        exists fs,
+          fs_run nblk (bstep_of bq apply2 cast) nextra (hls s)
+                 (init_state (fs_layout nblk nextra (hls s)) (v0 s) (st0 s)) (map (fun pgs => pgs s) H) = Ok fs
+          /\ vals (cget c (hrank S i s)) = g_vals fs
+          /\ stepc (cget c (hrank S i s)) = g_step fs
+          /\ forall b, b < hnb s -> owns (hP s) i b = true -> nth b (sts (cget c (hrank S i s))) ds = nth b (g_sts fs) ds.
+  Proof.
+    intros HS Hgs Hdiv Hown Hlen Hwf Hns.
+    assert (HW : forall s, s < S -> p_world (hP s) = R) by (intros; reflexivity).
+    assert (WF : forall s, s < S -> wf_config (hP s)).
+    { intros s Hs. unfold wf_config, hP, column_params. cbn. repeat split; [exact Hgs|exact Hdiv|]. intros b Hb. apply Hown; assumption. }
+    destruct (hy_run_exists R S hP HS HW WF _ (hy_init R S v0 st0 b0) Hns) as [c [Hrun Hcols]].
+    exists c. split; [exact Hrun|]. intros i s Hi Hs.
+    specialize (Hcols s Hs). rewrite (column_hy_init R S HS) in Hcols by exact Hs.
+    change (tab R (fun _ => {| vals := v0 s; sts := st0 s; buf := b0 s; stepc := 0%Z; log := [] |}))
+      with (plain_cluster (hP s) (v0 s) (st0 s) (b0 s)) in Hcols.
+    pose proof (column_eq_rounded_serial (hP s) (WF s Hs) _ _ _ _ _ (Hns s Hs) Hcols i Hi) as (A1 & A2 & A3).
+    rewrite !(cget_column R S) in A1, A2, A3 by assumption.
+    (* the column's single-process reference is the FullyShard run *)
+    set (hs := map (fun pgs : nat -> pgrads grad => pgs s) H) in *.
+    assert (Eh : map (fun e : hentry => e s) (map hentry_of H)
+                 = map (fun pg => global_grads pg (fs_nbs nblk (hls s))) (map (fs_grads (hls s)) hs)).
+    { unfold hs. rewrite !map_map. reflexivity. }
+    destruct (Hlen s Hs) as [Lv Ls].
+    pose proof (fs_wf_history nblk nextra (hls s) hs (Hwf s Hs)) as Hw.
+    destruct (group_run_eq_blockwise bstate grad value (bstep_of bq apply2 cast) (fs_layout nblk nextra (hls s)) (v0 s) (st0 s)
+                (map (fs_grads (hls s)) hs) (all_local_wf _ _)) as [fs [E O]];
+      try (unfold fs_layout; rewrite all_local_n_local; assumption); [exact Hw|].
+    exists fs. split; [exact E|].
+    rewrite Eh in A1, A2, A3.
+    rewrite (bridge_run (hP s) bq eq_refl cast nextra (fs_nbs nblk (hls s)) eq_refl) in A1, A2, A3 by assumption.
+    change (p_apply (hP s)) with apply2 in A1, A2, A3. change (p_cast (hP s)) with cast in A1, A2, A3.
+    fold (fs_layout nblk nextra (hls s)) in A1, A2, A3. rewrite <- O in A1, A2, A3.
+    unfold observable, sstate_of in A1, A2, A3. cbn [svals ssts sstepc] in A1, A2, A3.
+    split; [exact A1|]. split; [exact A2|]. intros b Hb Ho. apply (A3 b Hb Ho).
+  Qed.
+End HybridFinal.
+
+(* non-vacuity of the HybridShard theorems: a 2 x 2 mesh, num_trainers_per_group 2, parameters with 4, 3 and 1 rows (the
+   last has no row at shard coordinate 1), one block per local shard, blocks assigned alternately; two steps, the second
+   without a gradient for the last parameter.  Every hypothesis of hybrid_eq_fully_plus_ddp holds, and the computed run
+   shows the replicas (ranks 0 and 2; 1 and 3) agreeing on values that differ between the shard coordinates. *)
+Section HybridExample.
+  Let nblk := fun _ : list Z => 1.
+  Let bq := fun (t st v g : Z) => ((st + g)%Z, (- t * g)%Z).
+  Let gsh := [[4; 1]; [3; 1]; [1; 1]]%Z.
+  Let own := fun (_ b : nat) => b mod 2.
+  Let H : list (nat -> pgrads Z) :=
+    [fun s => [Some [(1 + Z.of_nat s)%Z]; Some [2%Z]; Some [3%Z]]; fun s => [Some [4%Z]; Some [(5 + Z.of_nat s)%Z]; None]].
+  Let v0 := fun s : nat => if s =? 0 then [10; 20; 30]%Z else [40; 50]%Z.
+  Let st0 := fun s : nat => if s =? 0 then [0; 0; 0]%Z else [0; 0]%Z.
+  Let PP := hP nblk 0%Z 0%Z bq (fun v : Z => v) Z.add 2 2 2 gsh own (fun _ => 64).
+
+  Example hybrid_hypotheses_satisfiable :
+    (forall s b, s < 2 -> b < hnb nblk 2 gsh s -> own s b < 2)
+    /\ (forall s, s < 2 -> length (v0 s) = hnb nblk 2 gsh s /\ length (st0 s) = hnb nblk 2 gsh s)
+    /\ (forall s, s < 2 -> Forall (fs_wf_input nblk (hls 2 gsh s)) (map (fun pgs => pgs s) H))
+    /\ hy_no_starvation 2 PP (map (hentry_of nblk 2 gsh) H)
+    /\ hy_wf 2 2 PP
+    /\ map (hls 2 gsh) [0; 1] = [[[2; 1]; [2; 1]; [1; 1]]; [[2; 1]; [1; 1]; [0; 1]]]%Z.
+  Proof.
+    split; [|split; [|split; [|split; [|split]]]].
+    - intros s b _ _. unfold own. apply Nat.mod_upper_bound. lia.
+    - intros s Hs. destruct s as [|[|s]]; [split; reflexivity|split; reflexivity|lia].
+    - intros s Hs. destruct s as [|[|s]]; [| |lia]; repeat constructor; cbn; intros; try reflexivity; discriminate.
+    - intros s Hs. destruct s as [|[|s]]; [right; reflexivity|right; reflexivity|lia].
+    - split; [lia|]. intros s Hs. split; [|reflexivity]. unfold wf_config, PP, hP, column_params.
+      cbn [p_gs p_world p_owner p_nb]. split; [lia|]. split; [reflexivity|].
+      intros b _. unfold own. apply Nat.mod_upper_bound. lia.
+    - reflexivity.
+  Qed.
+
+  Example hybrid_run_computed :
+    exists c, hy_run 2 2 PP (map (hentry_of nblk 2 gsh) H) (hy_init 2 2 v0 st0 (fun _ => [])) = Some c
+      /\ map (fun g => vals (cget c g)) [0; 1; 2; 3] = [[1; 8; 27]; [30; 36]; [1; 8; 27]; [30; 36]]%Z
+      /\ map (fun g => stepc (cget c g)) [0; 1; 2; 3] = [2; 2; 2; 2]%Z.
+  Proof. eexists. split; [vm_compute; reflexivity|]. split; reflexivity. Qed.
+End HybridExample.
